@@ -91,6 +91,11 @@ def cwd_of(proj, root):
     return os.path.join(root, c) if c else root
 
 
+def unusable(spec):
+    """the file yields no includes and no definitions: a parse error, or bytes that are not UTF-8"""
+    return bool(spec.get("bad") or spec.get("raw"))
+
+
 def template_names(proj):
     return {rel: "T%d" % i for i, rel in enumerate(sorted(proj["files"]))}
 
@@ -139,6 +144,11 @@ def materialise(proj, root):
         os.makedirs(os.path.join(root, d), exist_ok=True)
     for rel in proj["files"]:
         os.makedirs(os.path.dirname(os.path.join(root, rel)), exist_ok=True)
+        if proj["files"][rel].get("raw"):
+            # not UTF-8: read_to_string fails, the tool reports the file as not opened
+            with open(os.path.join(root, rel), "wb") as f:
+                f.write(b"\xff\xfe" + source_of(proj, rel, root)[0].encode())
+            continue
         with open(os.path.join(root, rel), "w") as f:
             f.write(source_of(proj, rel, root)[0])
     for rel in proj.get("extra", []):
@@ -166,23 +176,31 @@ def expand_named(cw, argv):
     """canonical paths of the files named on the command line (relative
     spellings are relative to the working directory cw): a named path
     that is not a directory is an input whatever its suffix; a named directory
-    stands for the .circom files below it."""
+    stands for the .circom files below it.  A directory is a set of entries
+    whatever spelling leads to it: the closure is computed over canonical
+    directories (a link back to the directory or to a parent adds nothing),
+    in no particular order — the order-free reading of the property, not the
+    tool's traversal."""
     out = []
+    seen_dirs = set()
 
-    def go(p, depth):
+    def go(p, top):
         q = p if p.startswith("/") else os.path.join(cw, p)
         if os.path.isdir(q):
-            if depth < WALK_LIMIT:
-                try:
-                    names = sorted(os.listdir(q))
-                except OSError:
-                    names = []
-                for e in names:
-                    go(pjoin(p, e), depth + 1)
-        elif (depth == 0 or ext_is_circom(p)) and os.path.exists(q):
+            d = os.path.realpath(q)
+            if d in seen_dirs:
+                return
+            seen_dirs.add(d)
+            try:
+                names = sorted(os.listdir(q))
+            except OSError:
+                names = []
+            for e in names:
+                go(pjoin(p, e), False)
+        elif (top or ext_is_circom(p)) and os.path.exists(q):
             out.append(os.path.realpath(q))
     for a in argv:
-        go(a, 0)
+        go(a, True)
     return out
 
 
@@ -271,7 +289,7 @@ def oracle(proj, root, impl, cli):
         seen.add(c)
         order.append(c)
         rel = rel_of.get(c)
-        if rel is None or proj["files"][rel].get("bad"):
+        if rel is None or unusable(proj["files"][rel]):
             continue
         for inc, s, e1, e2 in source_of(proj, rel, root)[1]:
             t = resolve(cw, c, inc, libs)
@@ -302,7 +320,7 @@ def oracle(proj, root, impl, cli):
     #    with a primary label in a file that parses: the only other labelled
     #    P1000 is the parse error, which a file that parses does not have), not
     #    by the wording of its message
-    bad_real = {c for c, rel in rel_of.items() if proj["files"][rel].get("bad")}
+    bad_real = {c for c, rel in rel_of.items() if unusable(proj["files"][rel])}
     errs = []
     for r in impl["reports"]:
         if r["code"] == "P1000" and r["labels"]:
@@ -351,13 +369,13 @@ def oracle(proj, root, impl, cli):
         if cli.get("timeout"):
             fails.append({"clause": "cycles terminate", "detail": "CLI did not finish within 10 s"})
         else:
-            parsed_ok = {c for c in got if c in rel_of and not proj["files"][rel_of[c]].get("bad")}
+            parsed_ok = {c for c in got if c in rel_of and not unusable(proj["files"][rel_of[c]])}
             want_t = sorted(tn[rel_of[c]] for c in parsed_ok if c in named)
             found_in = set()
             for f in cli["finding_files"]:
                 found_in.add(absolute(cw, f))
             analyzing = cli["analyzing"]
-            analysis_findings = {absolute(cw, f) for rule, f, _l in (cli.get("sarif") or []) if f and str(rule).startswith("CS")}
+            analysis_findings = {absolute(cw, x[1]) for x in (cli.get("sarif") or []) if x[1] and str(x[0]).startswith("CS")}
             if not analyzing and want_t and (analysis_findings & named) and not cli.get("panicked"):
                 # findings of analysis passes (rule ids CS...) are displayed for named files but no `analyzing ...` line was recognised
                 problems.append("reader of the CLI's `analyzing template/function '<name>'` lines (C19.py run_cli): none recognised "
@@ -394,13 +412,51 @@ def oracle(proj, root, impl, cli):
                             for u, line in source_parts(proj, rel_of[c], root)[2]:
                                 if os.path.join(root, u) in defined:
                                     want_u.add((c, line))
-                    for rule, f, line in cli["sarif"]:
-                        if rule == "CS0018" and f is not None:
-                            have_u.add((absolute(cw, f), line))
+                    for x in cli["sarif"]:
+                        if x[0] == "CS0018" and x[1] is not None:
+                            have_u.add((absolute(cw, x[1]), x[2]))
                     if want_u != have_u:
                         fails.append({"clause": "definitions from included files inform the analysis of the named files",
                                       "detail": "unused-output findings (CS0018) at (file, line) %s; components whose template is defined in a "
                                                 "file that was read: %s" % (sorted(have_u), sorted(want_u))})
+            if cli.get("sarif") is not None and not cli.get("panicked"):
+                rows = cli["sarif"]
+                # (a) the SARIF side of "only named files are reported on"
+                for x in rows:
+                    if x[1] and absolute(cw, x[1]) not in named:
+                        fails.append({"clause": "included-only files produce no findings (SARIF output)",
+                                      "detail": "SARIF result %s located in %s" % (x[0], x[1])})
+                # (b) an unresolvable include of a NAMED file is displayed at its
+                #     statement; the one of an included-only file is not (the
+                #     per-file filter: its only primary label lies in that file)
+                want_loc, want_hidden = set(), set()
+                for c, inc, s0, e1, e2 in unresolved:
+                    line = source_of(proj, rel_of[c], root)[0][:s0].count("\n") + 1
+                    (want_loc if c in named else want_hidden).add((c, line))
+                have_loc = {(absolute(cw, x[1]), x[2]) for x in rows if x[0] == "P1000" and x[1]}
+                have_loc = {y for y in have_loc if y[0] in rel_of and y[0] not in bad_real}
+                if want == have and have_loc != want_loc:
+                    fails.append({"clause": "an unresolved include of a named file is displayed, located at the include statement",
+                                  "detail": "P1000 results at (file, line) %s; unresolved includes of named files at %s "
+                                            "(of included-only files, not to be displayed: %s)" % (sorted(have_loc), sorted(want_loc), sorted(want_hidden))})
+                impl["cli_include_errors"] = {"displayed": len(have_loc & want_loc), "hidden": len(want_hidden - have_loc)}
+                # (c) reports WITHOUT a primary label (file not opened, unsupported
+                #     or missing pragma, several main components) are about a
+                #     file but not located in it: the CLI displays every one of
+                #     them, also when the file was only included (C03's reading:
+                #     only reports located solely in included files are hidden)
+                want_free = sorted((r["code"], r["msg"]) for r in impl["reports"]
+                                   if not r["labels"] and r["cat"] in ("error", "warning"))
+                have_free = sorted((x[0], x[3]) for x in rows if not x[1])
+                if want_free != have_free:
+                    fails.append({"clause": "reports without a location are displayed (also about included-only files)",
+                                  "detail": "label-less reports of parse_files %s, label-less SARIF results %s" % (want_free, have_free)})
+                about_included = 0
+                for code, msg in want_free:
+                    qs = [absolute(cw, q) for q in quoted(msg)[:1]]
+                    if qs and qs[0] in seen and qs[0] not in named:
+                        about_included += 1
+                impl["label_less"] = {"displayed": len(have_free), "about_included_only_files": about_included}
             cli_real = [absolute(cw, p) for p in cli["read"]]
             if not cli["read"] and read:
                 problems.append("reader of the CLI's `reading file` debug lines on stderr (C19.py run_cli): none recognised, "
@@ -437,7 +493,13 @@ def abstract(proj, root, info=None):
         q = absq(p)
         canon[p] = os.path.realpath(q) if os.path.exists(q) else None
 
+    visited = set()
+
     def walk(p, depth):
+        # the spellings the mirror of `add_files` (fix 517e7a0) can look up: the
+        # entries of every directory in OS order; a directory whose canonical
+        # path was listed before is recorded as a directory (with its entries)
+        # but not descended into again
         note(p)
         q = absq(p)
         if os.path.isdir(q):
@@ -449,6 +511,10 @@ def abstract(proj, root, info=None):
             except OSError:
                 return
             dirs[p] = names
+            d = os.path.realpath(q)
+            if d in visited:
+                return
+            visited.add(d)
             for n in names:
                 walk(pjoin(p, n), depth + 1)
     for a in argv:
@@ -475,7 +541,9 @@ def abstract(proj, root, info=None):
     for c in sorted({v for v in canon.values() if v}):
         if c in rel_of:
             rel = rel_of[c]
-            if proj["files"][rel].get("bad"):
+            if proj["files"][rel].get("raw"):
+                contents.append(c + ",U")
+            elif proj["files"][rel].get("bad"):
                 contents.append(c + ",E")
             else:
                 contents.append(",".join([c, "P"] + ["%s@%d@%d" % (inc, s, e1) for inc, s, e1, e2 in source_of(proj, rel, root)[1]]))
@@ -484,7 +552,7 @@ def abstract(proj, root, info=None):
         else:
             contents.append(c + ",U")
     if info is not None:
-        info.update({"canon_keys": set(canon), "dir_keys": set(dirs), "truncated": truncated,
+        info.update({"canon_keys": set(canon), "canon": dict(canon), "dirs": dict(dirs), "truncated": truncated,
                      "dir_libs": [x for x in libs if os.path.isdir(absq(x))], "argv": argv, "libs": libs})
     def lst(xs):
         return ";".join(xs) if xs else "-"
@@ -516,12 +584,32 @@ def table_misses(proj, root, info, model):
     for x in info["argv"] + info["libs"]:
         if x not in keys:
             misses.append("argument " + x)
+    # the expansion of the arguments, replayed over the TABLE with the rule of
+    # add_files_once: every spelling it looks up must be a key (fourth audit:
+    # the directory keys were collected and never checked)
+    seen = set()
+    canon, dirs = info["canon"], info["dirs"]
+
+    def visit(p, depth):
+        if p not in keys:
+            misses.append("directory entry " + p)
+            return
+        if p in dirs and depth < 200:
+            d = canon.get(p)
+            if d is not None:
+                if d in seen:
+                    return
+                seen.add(d)
+            for n in dirs[p] or []:
+                visit(pjoin(p, n), depth + 1)
+    for a in info["argv"]:
+        visit(a, 0)
     rel_of = real_to_rel(proj, root)
     for c in model.get("read", []):
         if c not in keys:
             misses.append("file read " + c)
         rel = rel_of.get(c)
-        if rel is None or proj["files"][rel].get("bad"):
+        if rel is None or unusable(proj["files"][rel]):
             continue
         for inc, s, e1, e2 in source_of(proj, rel, root)[1]:
             q = pjoin(os.path.dirname(c), inc)
@@ -621,6 +709,33 @@ def shapes():
                                        "other/t.circom": F("a.circom", "u.circom"), "other/u.circom": F("../src/l.circom")},
                              "links": {"src/l.circom": "../other/t.circom", "dl": "src"}, "libs": [".."],
                              "argvs": [["../../dl"], ["../..", "../t.circom"]]}))
+    # ---- fourth audit ----
+    # several links from a directory back to itself / its parent (fix 517e7a0:
+    # each canonical directory is read once; before it the expansion of a named
+    # directory grew as 3^40)
+    out.append(("dirloop-many", {"dirs": ["src", "src/sub"],
+                                 "files": {"src/a.circom": F("loop/up/src/sub/b.circom", "loop2/a.circom", uses=["src/sub/b.circom"]),
+                                           "src/sub/b.circom": F("../loop2/loop/a.circom")},
+                                 "links": {"src/loop": ".", "src/loop2": ".", "src/up": "..", "src/sub/back": "..", "src/sub/self": "."},
+                                 "libs": ["src/loop/loop2"],
+                                 "argvs": [["src"], ["."], ["src/sub", "src"], ["src/loop2/sub/back", "src/a.circom"]]}))
+    # includes with inner `./` and `../` that only a library can serve, and
+    # dot-leading ones that a library must not serve
+    out.append(("libdots", {"dirs": ["src", "lib1", "lib1/sub"],
+                            "files": {"src/a.circom": F("sub/../x.circom", "sub/./y.circom", "./x.circom", "../lib1/x.circom", "../src/../lib1/sub/y.circom",
+                                                        uses=["lib1/x.circom", "lib1/sub/y.circom"]),
+                                      "lib1/x.circom": F("sub/../sub/y.circom"), "lib1/sub/y.circom": F("../sub/./y.circom", "../x.circom")},
+                            "libs": ["lib1"]}))
+    # a -L argument that is a symbolic link to a directory, and is needed
+    out.append(("liblink", {"dirs": ["src", "lib1", "lib1/sub"],
+                            "files": {"src/a.circom": F("x.circom", "sub/y.circom", uses=["lib1/x.circom"]),
+                                      "lib1/x.circom": F("sub/y.circom"), "lib1/sub/y.circom": F()},
+                            "links": {"ll": "lib1", "src/lsub": "../lib1/sub"}, "libs": ["ll", "src/lsub"]}))
+    # a file that is not UTF-8 (open_file fails): named, included, below a named directory
+    out.append(("nonutf8", {"dirs": ["src"],
+                            "files": {"src/a.circom": F("raw.circom", "b.circom", uses=["src/raw.circom", "src/b.circom"]),
+                                      "src/raw.circom": F("b.circom", raw=True), "src/b.circom": F()},
+                            "libs": [], "argvs": [["src"]]}))
     res = []
     for name, p in out:
         p.setdefault("links", {})
@@ -704,9 +819,17 @@ def gen_random(rng):
             # a directory link to the directory it lives in (at most one per
             # directory: two would make the expansion of a named directory
             # exponential in the kernel's limit of 40 links)
+            # links from a directory back to itself or to its parent, several
+            # per directory (fix 517e7a0 made that affordable)
             d = rng.choice(dirs)
-            links.setdefault(d + "/loop", ".")
-            dirlinks[d + "/loop"] = d
+            for nm in rng.sample(["loop", "loop2", "up"], rng.choice([1, 2, 3])):
+                if nm == "up":
+                    links.setdefault(d + "/up", "..")
+                    if os.path.dirname(d):
+                        dirlinks[d + "/up"] = os.path.dirname(d)
+                else:
+                    links.setdefault(d + "/" + nm, ".")
+                    dirlinks[d + "/" + nm] = d
         else:
             t = rng.choice(dirs)
             links["dl%d" % i] = t
@@ -733,7 +856,11 @@ def gen_random(rng):
                 incs.append(os.path.basename(t))
             elif k == 5:
                 ls = [x for x in libdirs if t.startswith(x + "/")]
-                incs.append(os.path.relpath(t, rng.choice(ls)) if ls else r)
+                r5 = os.path.relpath(t, rng.choice(ls)) if ls else r
+                if ls and rng.random() < 0.4:
+                    # inner `./` or `x/../`: still a name only the library can serve
+                    r5 = r5.replace("/", "/./", 1) if "/" in r5 else "sub/../" + r5
+                incs.append(r5)
             elif k == 6:
                 incs.append(rng.choice(["missing.circom", "./missing.circom", "nodir/x.circom", "../missing.circom",
                                         ".hidden.circom", os.path.basename(rel),
@@ -756,11 +883,16 @@ def gen_random(rng):
         pk = rng.random()
         pragma = DEFAULT_PRAGMA if pk < 0.6 else rng.choice(PRAGMAS_TOO_NEW) if pk < 0.8 else rng.choice(PRAGMAS_OTHER)
         files[rel] = {"incs": incs, "bad": rng.random() < 0.05, "pragma": pragma, "uses": uses, "main": rng.random() < 0.15}
+        if rng.random() < 0.04:
+            files[rel]["raw"] = True
     libs = []
     for _ in range(rng.choice([0, 1, 1, 2, 3])):
         k = rng.randrange(10)
         if k < 5 and libdirs:
-            libs.append(spell(rng, rng.choice(libdirs), dirlinks))
+            ld = rng.choice(libdirs)
+            via = [ln for ln, target in sorted(dirlinks.items()) if target == ld]
+            # a library given through a symbolic link to the directory
+            libs.append(rng.choice(via) if via and rng.random() < 0.5 else spell(rng, ld, dirlinks))
         elif k < 8:
             libs.append(spell(rng, rng.choice(allnames), dirlinks))
         else:
@@ -808,6 +940,23 @@ def run_harness(binary, lines):
     return out
 
 
+def first_snippets(out):
+    """the file of the FIRST source snippet of every diagnostic on stdout (its
+    primary location); further snippets of the same diagnostic (a second label,
+    e.g. the other definition of a duplicated name, possibly in an included
+    file) are not locations of findings of their own (fourth audit)"""
+    files, armed = [], False
+    for line in out.splitlines():
+        if re.match(r"^(error|warning|note|help|bug)(\[[^\]]*\])?: ", line):
+            armed = True
+        elif armed:
+            m = re.search(r"┌─ (.+?):\d+:\d+", line)
+            if m:
+                files.append(m.group(1))
+                armed = False
+    return files
+
+
 def run_cli(cli_bin, proj, root, sarif_path=None):
     cmd = [cli_bin]
     for lib in proj["libs"]:
@@ -822,7 +971,7 @@ def run_cli(cli_bin, proj, root, sarif_path=None):
         return {"timeout": True}
     res = {"rc": rc,
            "analyzing": re.findall(r"analyzing (?:template|function) '([^']+)'", out),
-           "finding_files": re.findall(r"┌─ (.+?):\d+:\d+", out),
+           "finding_files": first_snippets(out),
            "read": re.findall(r"reading file `([^`]*)`", err),
            "panicked": "panicked at" in err,
            "sarif": None}
@@ -839,16 +988,16 @@ def run_cli(cli_bin, proj, root, sarif_path=None):
                     f = ph["artifactLocation"]["uri"]
                     f = f[len("file://"):] if f.startswith("file://") else f
                     line = ph["region"]["startLine"]
-                rows.append([r.get("ruleId"), f, line])
+                rows.append([r.get("ruleId"), f, line, (r.get("message") or {}).get("text")])
             res["sarif"] = rows
         except Exception as e:          # no file (a crash of the tool), or another layout
             res["sarif_error"] = "%s: %s" % (type(e).__name__, str(e)[:200])
         # the two readers of finding locations must agree on the set of files
         if res["sarif"] is not None:
-            sf = sorted({f for _r, f, _l in res["sarif"] if f})
+            sf = sorted({x[1] for x in res["sarif"] if x[1]})
             of = sorted(set(res["finding_files"]))
             if sf != of:
-                res["location_readers_differ"] = {"stdout": of, "sarif": sf}
+                res["location_readers_differ"] = {"stdout": of, "sarif": sf}   # judged in evaluate(): a reader problem only if the oracle found no failure
     return res
 
 
@@ -873,7 +1022,7 @@ def normalise(impl, dropped=None, proj=None, root=None):
         rel_of = real_to_rel(proj, root)
         for fid, (name, _u) in enumerate(impl["files"]):
             rel = rel_of.get(absolute(cw, name))
-            if rel is not None and not proj["files"][rel].get("bad"):
+            if rel is not None and not unusable(proj["files"][rel]):
                 for inc, s, e1, e2 in source_of(proj, rel, root)[1]:
                     starts[(fid, s)] = inc
 
@@ -985,16 +1134,17 @@ def evaluate(ctx, projs, base, with_model=True, with_cli=True):
     for p, root, im, cl, mo, info in zip(projs, roots, impl, clis, models, infos):
         idem = mo.pop("canon_idempotent", None) if isinstance(mo, dict) else None
         depth_ok = mo.pop("depth_ok", None) if isinstance(mo, dict) else None
+        revisited = mo.pop("dirs_revisited", None) if isinstance(mo, dict) else None
         dropped = {}
         fails = oracle(p, root, im, cl)          # also settles which reader of the files read is used
         res.append({"proj": p, "root": root, "impl": im, "cli": cl, "model": mo,
                     "broken_links": sum(1 for rel in p.get("links", {}) if not os.path.exists(os.path.join(root, rel))),
                     "norm": normalise(im, dropped, p, root), "fails": fails,
-                    "canon_idempotent": idem, "depth_ok": depth_ok, "dropped": dropped,
+                    "canon_idempotent": idem, "depth_ok": depth_ok, "dirs_revisited": revisited, "dropped": dropped,
                     "table_misses": table_misses(p, root, info, mo) if with_model else [],
                     "reader_problems": list(im.get("reader_problems", [])) +
                                        (["readers of finding locations (stdout `┌─` lines, SARIF locations; C19.py run_cli) name different files: %s"
-                                         % json.dumps(cl["location_readers_differ"])] if cl and cl.get("location_readers_differ") else [])})
+                                         % json.dumps(cl["location_readers_differ"])] if cl and cl.get("location_readers_differ") and not fails else [])})
     return res
 
 
@@ -1003,22 +1153,11 @@ def strip_root(x, root):
 
 
 def hidden_include_errors(r):
-    """Include errors located in files that were only included: present in the
-    unfiltered reports of parse_files, absent from what the CLI shows (its
-    per-file filter) — counted as an observation, see design.d/C19.md."""
-    im, cl = r["impl"], r["cli"]
-    if not cl or cl.get("sarif") is None or im.get("kind") not in ("program", "library"):
-        return 0, 0
-    hidden = shown = 0
-    located = {(f, l) for rule, f, l in cl["sarif"] if rule == "P1000" and f}
-    for x in r["norm"].get("reports", []):
-        if x[0] == "inc":
-            name, user = im["files"][x[2]]
-            if user:
-                shown += 1
-            else:
-                hidden += 1 if not any(f == name for f, _l in located) else 0
-    return hidden, shown
+    """(hidden, displayed) include errors, both read from the CLI's SARIF output by the
+    oracle (clause b): located P1000 results at statements of named files, and
+    unresolved includes of included-only files with no result."""
+    d = r["impl"].get("cli_include_errors") if isinstance(r["impl"], dict) else None
+    return (d["hidden"], d["displayed"]) if d else (0, 0)
 
 
 def run(ctx, proofs):
@@ -1081,6 +1220,13 @@ def run(ctx, proofs):
                           "project tables: the theorems say nothing about these runs" % len(not_idem),
                           {"broken": "premise canon_idempotent_b (table built by C19.py abstract)", "projects": len(not_idem),
                            "first": {"input": r["proj"], "model": strip_root(r["model"], r["root"])}}, no_input=True)
+        real_not_idem = [r for r in res if (r["impl"].get("not_idempotent") if isinstance(r["impl"], dict) else None)]
+        if real_not_idem:
+            r = real_not_idem[0]
+            ctx.violation("premise `canon` idempotent fails on the real fs::canonicalize: canonicalising a path of the FileLibrary again does "
+                          "not return it, on %d projects" % len(real_not_idem),
+                          {"broken": "premise canon idempotent (real fs::canonicalize, evaluated by harness includes)", "projects": len(real_not_idem),
+                           "first": {"input": r["proj"], "paths": strip_root(r["impl"]["not_idempotent"], r["root"])}}, no_input=True)
         if not_depth:
             r = not_depth[0]
             ctx.violation("premise depth_ok_b (directories below the named paths nest at most 63 deep) of C19_run_project_fuel_ok is "
@@ -1142,6 +1288,24 @@ def run(ctx, proofs):
                                    "rule": "all three are evaluated for every project; a project on which one is false is a "
                                            "VIOLATION (no failing input) naming the premise"},
             "tables_with_idempotent_canon": sum(1 for r in res if r["canon_idempotent"]),
+            "canon_idempotent_on_the_real_fs": {
+                "library_paths_canonicalised_again": sum(len(r["impl"].get("files") or []) for r in res),
+                "not_returned_unchanged": sum(len(r["impl"].get("not_idempotent") or []) for r in res),
+                "rule": "harness includes calls fs::canonicalize on every FileLibrary name (each is a canonical path handed to parse_file) "
+                        "and compares; canon_idempotent_b above is evaluated on the table built by abstract(), which maps every canonical "
+                        "path to itself by construction - it checks the table builder, not the file system"},
+            "premise_no_directory_met_twice": {
+                "dirs_revisited_false": sum(1 for r in res if r["dirs_revisited"] is False),
+                "dirs_revisited_true": sum(1 for r in res if r["dirs_revisited"] is True),
+                "not_evaluated": sum(1 for r in res if r["dirs_revisited"] is None),
+                "rule": "premise of the theorems that mention `named` (since the mirror follows fix 517e7a0); where it is true (a named "
+                        "directory with a link back to itself or a parent) those theorems are silent by design - not a violation - and the "
+                        "run is covered by the premise-free theorems, the model comparison and the oracle"},
+            "label_less_reports": {
+                "displayed_by_the_cli": sum((r["impl"].get("label_less") or {}).get("displayed", 0) for r in res),
+                "of_which_about_included_only_files": sum((r["impl"].get("label_less") or {}).get("about_included_only_files", 0) for r in res),
+                "rule": "P1000 file not opened, P1003/P1004 pragma, P1002 several mains: no primary label, so not `located solely in an "
+                        "included file`; the CLI must display each (oracle clause c, compared by code and message with parse_files' reports)"},
             "front_comparison_reports": front_report_counts(res),
             "files_by_pragma_kind": pk,
             "projects_in_program_mode": sum(1 for r in res if r["impl"].get("kind") == "program"),
@@ -1157,6 +1321,14 @@ def run(ctx, proofs):
             "include_errors_in_included_only_files(hidden_by_the_cli_filter)": sum(h[0] for h in hid),
             "reader_problems": sum(len(r["reader_problems"]) for r in res),
             "open_statements": [
+                "named directories after fix 517e7a0: that skipping a directory whose canonical path was read before loses no file "
+                "(completeness of the user-input set for directories linked back to themselves) is not proved: it needs a coherence "
+                "property of the file system (all spellings of a directory list the same entries) that the finite tables cannot state. "
+                "Proved without it: every user input is named, every non-directory argument is a user input, and with "
+                "dirs_revisited = false everything as before. Checked by the oracle (order-free closure over canonical directories) on "
+                "every project, including directories with up to three links back (premise_no_directory_met_twice.dirs_revisited_true)",
+                "hard links: two paths of one inode are two canonical paths, i.e. two distinct files for the tool and for this check "
+                "(`distinct file` = distinct canonical path); not generated",
                 "\"definitions from files that were only included inform the analysis of the named files\": no Coq statement. "
                 "Model.Includes abstracts a file to its include list, so the hand-over of definitions (parse_files -> "
                 "ProgramArchive::new / TemplateLibrary::new -> AnalysisRunner::template) is not mirrored; the clause is checked by the "
@@ -1183,8 +1355,10 @@ def run(ctx, proofs):
             "Model.IncludesRunner.file_library_user_inputs, a three-line mirror of FileLibrary::add_file; that Model.Runner is main.rs "
             "is C03's correspondence, that FileLibrary numbers files in call order is read off the source, and the CLI output "
             "(analysing lines, finding locations, every named file reported on) is observed here on every project",
-            "an unresolvable include inside a file that was only included: parse_files reports it located at the statement (checked "
-            "on the unfiltered reports), the CLI's per-file filter does not display it (counted in the evidence, an observation)",
+            "what the CLI displays about a file that was only included: reports WITHOUT a primary label about it (file not opened, "
+            "pragma missing or unsupported - the latter an error, exit status 1) ARE displayed, as C03 words it (only reports located "
+            "solely in included files are hidden); a report LOCATED in it - the include error at its unresolvable include statement, "
+            "any finding of an analysis pass - is not. Both directions are oracle clauses on the CLI's SARIF output (b, c) and on stdout",
             "the files read are taken from the `reading file` debug lines and cross-checked with the FileLibrary (one entry per "
             "opened file); there is no hook for file accesses, a changed log line is reported as a reader problem",
             "the tie between the hand mirror of include_logic.rs and the code, and between the tables and the real fs::canonicalize / "
